@@ -345,6 +345,12 @@ theorem tsoglobal_structure_facts :
     PdModel.Generated.TsoGlobal.globalSyncSerialised = true ∧
     PdModel.Generated.TsoGlobal.suffixCreateLeaderGuarded = true ∧
     PdModel.Generated.TsoGlobal.suffixCreateUnguardedTxn = false ∧
+    -- the width is derived from the largest suffix seen, the returned logical is `raw << bits + suffix`,
+    -- generateTSO returns the differentiated value and getTS checks the overflow on what generateTSO returned
+    PdModel.Generated.TsoGlobal.suffixBitsFromMaxSuffix = true ∧
+    PdModel.Generated.TsoGlobal.differentiateShape = true ∧
+    PdModel.Generated.TsoGlobal.generateDifferentiates = true ∧
+    PdModel.Generated.TsoGlobal.overflowCheckedOnDifferentiated = true ∧
     PdModel.Generated.TsoGlobal.syncMaxRetryCount = 2 := by decide
 
 end PdModel.TsoGlobal
